@@ -85,8 +85,13 @@ def _paths_from_list_modifications(module_context, trailer1, trailer2):
     if name not in ['insert', 'append']:
         return
     arg = trailer2.children[1]
-    if name == 'insert' and len(arg.children) in (3, 4):  # Possible trailing comma.
+    if name == 'insert' and arg.type == 'arglist' \
+            and len(arg.children) in (3, 4):  # Possible trailing comma.
         arg = arg.children[2]
+
+    if arg.type in ('arglist', 'argument'):
+        # Multiple arguments, `*args`, `key=value` or a generator; not a path.
+        return
 
     for value in module_context.create_context(arg).infer_node(arg):
         p = get_str_or_none(value)
